@@ -8,6 +8,7 @@ import (
 	"go/types"
 	"regexp"
 	"sort"
+	"strconv"
 	"strings"
 
 	"golang.org/x/tools/go/ssa"
@@ -1882,6 +1883,21 @@ func (c *fnCtx) emitInstr(in ssa.Instruction, ind int, cur map[int]string) {
 			}
 			if intSuffix(v.X.Type()) == "U16" {
 				fail("%s on %s", v.Op, v.X.Type())
+			}
+			if k, isConst := v.Y.(*ssa.Const); v.Op == token.AND_NOT && isConst && k.Value != nil {
+				// `x &^ c` and `x & ^c` are two spellings of one operation: one normal form for both (go/ssa folds `^c`
+				// into a constant; the complement is taken here the same way, in the operand's type)
+				prec := uint(0)
+				if isUnsigned(v.X.Type()) {
+					if b, err := strconv.Atoi(intSuffix(v.X.Type())[1:]); err == nil {
+						prec = uint(b)
+					} else {
+						fail("and-not on %s", v.X.Type())
+					}
+				}
+				nk := ssa.NewConst(constant.UnaryOp(token.XOR, constant.ToInt(k.Value), prec), k.Type())
+				c.let(ind, v, fmt.Sprintf("GoSem.and%s %s %s", intSuffix(v.X.Type()), c.operand(v.X), c.constant(nk)))
+				return
 			}
 			c.let(ind, v, fmt.Sprintf("GoSem.%s%s %s %s", name, intSuffix(v.X.Type()), c.operand(v.X), c.operand(v.Y)))
 			return
